@@ -159,6 +159,13 @@ let utf8_mode (file : string) : unit =
            incr n;
            let m = if utf8_valid (bytes_of_hex h) then "1" else "0" in
            if m <> v then begin incr bad; if !bad <= 10 then Printf.printf "DISAGREE %s model=%s std=%s\n" h m v end
+       | [h; v; l] ->
+           (* with the lossy text: Lossy.lossy against String::from_utf8_lossy *)
+           incr n;
+           let m = if utf8_valid (bytes_of_hex h) then "1" else "0" in
+           let ml = hex_of_bytes (lossy (bytes_of_hex h)) in
+           if m <> v then begin incr bad; if !bad <= 10 then Printf.printf "DISAGREE %s model=%s std=%s\n" h m v end
+           else if ml <> l then begin incr bad; if !bad <= 10 then Printf.printf "DISAGREE lossy %s model=%s std=%s\n" h ml l end
        | _ -> ()
      done
    with End_of_file -> ());
@@ -182,8 +189,34 @@ let pushloop_mode (total : int) (pattern : string) : unit =
   done;
   Printf.printf "END len=%d cap=%d requests=%d copied=%d\n" (int_of_n !st.gl) (int_of_n !st.gc) (int_of_nat !st.gk) (int_of_n !st.gcp)
 
+(* `driver --utf16 FILE`: each line `<u16 units, 4 hex digits each, or -> <std from_utf16: Err | utf-8 hex> <std lossy utf-8 hex>`;
+   the model: Lossy.utf16_decode, errors = lone surrogates, lossy = U+FFFD for each error *)
+let utf16_mode (file : string) : unit =
+  let ic = open_in file in
+  let n = ref 0 and bad = ref 0 in
+  let units_of (s : string) : n list =
+    if s = "-" then [] else List.init (String.length s / 4) (fun i -> n_of_int (int_of_string ("0x" ^ String.sub s (4 * i) 4))) in
+  (try
+     while true do
+       let line = input_line ic in
+       match split line with
+       | [u; strict; lossy_std] ->
+           incr n;
+           let d = utf16_decode (units_of u) in
+           let ok = List.for_all (fun o -> o <> None) d in
+           let enc o = match o with Some c -> encode_cp c | None -> encode_cp (n_of_int 65533) in
+           let ms = if ok then hex_of_bytes (List.concat (List.map enc d)) else "Err" in
+           let ml = hex_of_bytes (List.concat (List.map enc d)) in
+           if ms <> strict || ml <> lossy_std then begin
+             incr bad; if !bad <= 10 then Printf.printf "DISAGREE utf16 %s model=%s/%s std=%s/%s\n" u ms ml strict lossy_std end
+       | _ -> ()
+     done
+   with End_of_file -> ());
+  Printf.printf "utf16_decode compared %d disagreements %d\n" !n !bad
+
 let () =
   if Array.length Sys.argv > 2 && Sys.argv.(1) = "--utf8" then (utf8_mode Sys.argv.(2); exit 0);
+  if Array.length Sys.argv > 2 && Sys.argv.(1) = "--utf16" then (utf16_mode Sys.argv.(2); exit 0);
   if Array.length Sys.argv > 3 && Sys.argv.(1) = "--pushloop" then (pushloop_mode (int_of_string Sys.argv.(2)) Sys.argv.(3); exit 0);
   let ic = if Array.length Sys.argv > 1 then open_in Sys.argv.(1) else stdin in
   let buf = Buffer.create 65536 in
